@@ -31,8 +31,9 @@ PARAMETER_TYPE_TEMPLATE_DATA = 'template_data'
 
 BITPOS_START = 'bitpos_start'
 
-# A list of numbers that corresponds to missing values for a number of bits up to 64
-NUMERIC_MISSING_VALUES = [2 ** i - 1 for i in range(65)]
+# A list of numbers that corresponds to missing values for a number of bits up to 255,
+# the widest field an 8-bit operand (206YYY, 204YYY) can describe
+NUMERIC_MISSING_VALUES = [2 ** i - 1 for i in range(256)]
 
 
 # Number of bits for represent number of bits used for difference
